@@ -32,7 +32,7 @@ static struct {
   volatile long ran_on[MV_MAXP];
   long probes, switched, migrated, entries;
 } G;
-static const size_t cstk[] = { 0, 16384, 32768, 65536 };
+static const size_t cstk[] = { 0, 16384, 32768, 20000 };
 
 static __attribute__((noinline)) void align_observer(int id, int me) {
   (void)id; (void)me;
